@@ -129,6 +129,33 @@ CHECKS = {
         note="Trusted: Lean kernel; axioms propext/Quot.sound/Classical.choice; Spec/BodyDec.lean as the reading of RFC 2045 6.7/6.8; model + harness. "
              "Not yet proved: qp_roundtrip / qp_lines (checked by the decoder on real outputs only).",
         technique="Lean 4 proof (invariants over the chooser / CRLF conversion / base64 chunking) + exhaustive/sampled correspondence with independent decoders"),
+    "C02": dict(
+        category="proof",
+        text="Lean theorems over a model of HeaderValue::new (email-encoding's writer, folding writer and RFC 2047 encoder), the header-name "
+             "check and the Headers map: value_wf (for every Rust string: no bare CR/LF, every CRLF followed by SP, only HTAB/printable "
+             "ASCII), name_safe, section_read_back / headers_read_back (an RFC 5322 reader recovers exactly the stored fields in order and "
+             "the body: nothing supplied can add, split, truncate or terminate a field), names_stay_unique. Line-length bounds (78 / 998) "
+             "are checked on real outputs only (four narrow known findings). Correspondence: names of every length x adversarial texts "
+             "(all alignments of 1-4 byte characters, CR/LF/NUL/controls, up to 64 KiB), all ASCII names up to length 2, random "
+             "insert/remove/get sequences; the reader is applied to every real header block.",
+        design_ref="DESIGN.md 5 C02",
+        note="Trusted: Lean kernel; axioms propext/Quot.sound/Classical.choice; Spec/HeaderReader.lean as the reading of RFC 5322 2.2; hypothesis "
+             "ContRunsLe3 (a Rust str never has 4 continuation octets in a row); model + harness. Typed header constructors and whole "
+             "messages are covered by C17/C01/C11's checks. Known findings: HTAB is not a fold point, trailing spaces past column 78, "
+             "spaces before an encoded-word not counted, a run of 900+ spaces on one line.",
+        technique="Lean 4 proof (writer invariant through folding and RFC 2047 encoding; reader lemma by induction) + correspondence with an RFC 5322 reader on real output"),
+    "C12": dict(
+        category="proof",
+        text="Lean theorems: encoded_word_roundtrip (every encoded-word the encoder can emit has the =?utf-8?b?...?= shape, at most 75 "
+             "characters, and decodes to exactly its word: base64 inverse proved), word_room_le_45, together with C02.value_wf for the "
+             "folding. The full statement decode(encodeValue n raw) = raw is recorded in Props/C12.lean and not proved yet: for it the "
+             "tie is the correspondence check, which unfolds and RFC 2047-decodes every real encoded value (names of every length, every "
+             "alignment of 1-4 byte characters against the fold column and the base64 groups, space/tab runs, literal encoded-word "
+             "look-alikes, up to 64 KiB) and requires the input back. Display names and RFC 2231 file names are checked under C17's ops.",
+        design_ref="DESIGN.md 5 C12",
+        note="Trusted: Lean kernel; axioms propext/Quot.sound/Classical.choice; Spec/Rfc2047Dec.lean as the reading of RFC 2047; model + harness. "
+             "Not yet proved: unstructured_roundtrip (checked on real outputs only).",
+        technique="Lean 4 proof (encoded-word validity, base64 inverse) + correspondence with an independent RFC 2047 reader on real output"),
 }
 
 NOT_APPLICABLE = {
